@@ -117,6 +117,16 @@ def err_to_ok(fb):
             reach = C.reachable(f, err_t, removed={bi})
             if not any(e in reach for e in ex):
                 continue
+            # the retry idiom `Err(ref e) if e.kind() == ErrorKind::Interrupted => continue`: every way from the Err edge to a success
+            # exit passes the comparison with Interrupted, and the loop the switch sits in is re-entered (a back edge to a header that
+            # dominates the switch)
+            cmpb = {b for b in reach for st in f.blocks[b]["s"] if st[0] == "=" and st[2][0] == "agg" and st[2][1] == "adt"
+                    and st[2][2].endswith("io::error::ErrorKind") and st[2][3] == "Interrupted"}
+            if cmpb:
+                around = C.reachable(f, err_t, removed={bi} | cmpb) if err_t not in cmpb else set()
+                heads = {h for h, body in C.natural_loops(f) if bi in body and C.dominates(f, h, bi)}
+                if not any(e in around for e in ex) and any(h in reach for h in heads):
+                    continue
             read = False
             for b in reach:
                 for st in f.blocks[b]["s"]:
@@ -166,6 +176,16 @@ def _compares_interrupted(fb, f):
                         st[2][2].endswith("io::error::ErrorKind") and st[2][3] == "Interrupted":
                     return True
     return False
+
+
+def _retries_interrupted(fb, f, call_block):
+    """Sharper form for one fill_buf site: the comparison with Interrupted sits in the same body and the call is reached again from it
+    (a retry, not a break or a successful return); a comparison that lives in a closure of the function is accepted as before."""
+    own = [b for b, blk in enumerate(f.blocks) for st in blk["s"]
+           if st[0] == "=" and st[2][0] == "agg" and st[2][1] == "adt" and st[2][2].endswith("io::error::ErrorKind") and st[2][3] == "Interrupted"]
+    if not own:
+        return _compares_interrupted(fb, f)
+    return any(call_block in C.reachable(f, b) for b in own)
 
 
 def raw_io_sites(fb, rx):
@@ -547,7 +567,22 @@ def fill_loop_eof_sites(fb):
             mine = [body for h, body in loops if b in body]
             if not mine:
                 continue
-            body = min(mine, key=len)
+            # a loop whose every cycle goes through the Err edge of this very call (retry on Interrupted, then return) scans nothing
+            d0 = c.get("dest")
+            if d0 is not None and not d0[1]:
+                errs = set()
+                for s0 in set().union(*mine):
+                    t0 = f.blocks[s0]["t"]
+                    if t0[0] == "sw":
+                        cond0 = C.switch_condition(f, s0)
+                        if cond0 and cond0[0] == "discr" and cond0[1][0] == d0[0]:
+                            vals0 = dict((v, tg) for v, tg in t0[2])
+                            errs.add(vals0.get(1, t0[3]))
+                nxt0 = c.get("t")
+                if errs and nxt0 is not None and b not in C.reachable(f, nxt0, removed=errs):
+                    continue
+            # several back edges (a `continue` on Interrupted) give several natural loops with the same header: take their union
+            body = set().union(*mine)
             d = c.get("dest")
             if d is None or d[1]:
                 continue
